@@ -34,14 +34,14 @@ func verifBuildAbstract(p interface{}, n int) {
 // verifNet: a hashgraph over n validators with the fixed test keys, built
 // through the package's real constructors.
 type verifNet struct {
-	h      *Hashgraph
-	store  *InmemStore
-	keys   []*ecdsa.PrivateKey
-	pubs   [][]byte
-	hexes  []string
-	peers  []*peers.Peer
-	set    *peers.PeerSet
-	blocks []*Block
+	h         *Hashgraph
+	store     *InmemStore
+	keys      []*ecdsa.PrivateKey
+	pubs      [][]byte
+	hexes     []string
+	peers     []*peers.Peer
+	set       *peers.PeerSet
+	blocks    []*Block
 	commitErr error
 }
 
